@@ -280,4 +280,23 @@ def rule_c06r6(ctx):
     return src
 
 
-RULES = [("C12-R1", rule_r1), ("C12-R2", rule_r23), ("C12-R4", rule_r4), ("C12-R5", rule_r5), ("C12-R6", rule_c06r6)]
+def rule_c06r4(ctx):
+    """A class body reads the variables of enclosing functions through the owner recorded by
+    NamespaceClass.__init__ (shared rule C06-R4, restricted to the class namespace)."""
+    from .c06 import rule_r4
+
+    src = rule_r4(ctx)
+    rr = RuleResult("C06-R4", "class bodies: the enclosing function recorded as owner of a free name is the one where it is local (instance of C06-R4)")
+    rr.floor = 1
+    for f in src.findings:
+        if "|NamespaceClass|" in f.key:
+            rr.fail(f.key, f.msg, where=f.where)
+    for w in sorted(map(str, src.nontrivial)):
+        if w.startswith("NamespaceClass|"):
+            rr.instances += 1
+            rr.ok(w)
+    rr.instances = max(rr.instances, 1 if rr.findings else 0)
+    return rr
+
+
+RULES = [("C12-R1", rule_r1), ("C12-R2", rule_r23), ("C12-R4", rule_r4), ("C12-R5", rule_r5), ("C12-R6", rule_c06r6), ("C06-R4", rule_c06r4)]
